@@ -375,5 +375,7 @@ def run(chk, ctx):
     r3(chk, ctx, sp, p, se)
     r4(chk, ctx, sp)
     r5(chk, ctx, sp)
+    from . import c05
+    c05.r1(chk, ctx, p, se)                  # the raw input a Catcher's ResultPath is applied to is the state's raw input, saved for the join
     chk.assume("the third-party jsonpath function does not modify its input (trusted)")
     chk.assume("JSON documents handed to the engine are trees (json.loads output)")
